@@ -471,7 +471,10 @@ def _replay_entropy(which, variant):
                 got, want = entropy.stdrenyi2_entropy(df, "x0", base=base), stats.stdpc(df["x0"]) / (stats.pc(df["x0"]) * np.log(base))
             else:
                 got, want = entropy.stdrenyi2_entropy(df, ["x0", "x1"], base=base), stats.stdpc_joint(df, ["x0", "x1"]) / (stats.pc_joint(df, ["x0", "x1"]) * np.log(base))
-        same = (math.isnan(got) and math.isnan(want)) or got == want or abs(got - want) <= 1e-9 * max(1.0, abs(want))
+        if math.isinf(got) or math.isinf(want):
+            same = got == want                        # an infinity is matched only by the same infinity
+        else:
+            same = (math.isnan(got) and math.isnan(want)) or got == want or abs(got - want) <= 1e-9 * max(1.0, abs(want))
         return bool(same), f"{which}/{variant}: {got!r} expected {want!r}"
     return replay
 
